@@ -22,9 +22,18 @@ fn nth_script(ops: &[&'static str], len: usize, mut idx: usize) -> Vec<&'static 
 }
 
 fn server_case(ctx: &Ctx, script: &[&str], flags: Flags, spelling: usize) {
+    server_case_x(ctx, script, flags, spelling, false)
+}
+
+/// `upgraded`: the script is run by the upgraded handler on the call object it is given (which
+/// answers no request at all, hence none that carried `more`), after an Upgrade call.
+fn server_case_x(ctx: &Ctx, script: &[&str], flags: Flags, spelling: usize, upgraded: bool) {
     let log = new_log();
-    let svc = standard_service(SvcCfg { log: Some(log.clone()), ..Default::default() });
+    let svc = standard_service(SvcCfg { log: Some(log.clone()), up: if upgraded { crate::svc::UpMode::Script } else { crate::svc::UpMode::Drain }, ..Default::default() });
     let mut req = json!({"method": "org.verif.t.Script", "parameters": {"ops": script, "token": "T"}});
+    if upgraded {
+        req = json!({"method": "org.verif.t.Upgrade", "parameters": {"token": "U"}, "upgrade": true});
+    }
     if flags.more {
         req["more"] = json!(true);
     }
@@ -42,11 +51,18 @@ fn server_case(ctx: &Ctx, script: &[&str], flags: Flags, spelling: usize) {
     }
     let mut bytes = serde_json::to_vec(&req).unwrap();
     bytes.push(0);
+    if upgraded {
+        bytes.extend_from_slice(script.join(" ").as_bytes());
+        bytes.push(b'\n');
+    }
     let run = run_whole(&svc, &bytes, Some(log.clone()));
     let evs = log.lock().unwrap().clone();
     let has_reply_op = script.iter().any(|o| !o.starts_with('c'));
-    ctx.case(if has_reply_op { Some(hash_of(&(script, flags, spelling))) } else { None });
-    let wit = |msg: String| json!({"engine": "c05-server", "script": script, "more": flags.more, "oneway": flags.oneway, "unset_flags_spelled": (["absent", "false", "null"][spelling]), "events": format!("{:?}", evs), "reply_bytes": show(&run.out), "message": msg});
+    ctx.case(if has_reply_op { Some(hash_of(&(script, flags, spelling, upgraded))) } else { None });
+    if upgraded {
+        ctx.count("scripts_run_by_the_upgraded_handler", 1);
+    }
+    let wit = |msg: String| json!({"engine": "c05-server", "upgraded_handler": upgraded, "script": script, "more": flags.more, "oneway": flags.oneway, "unset_flags_spelled": (["absent", "false", "null"][spelling]), "events": format!("{:?}", evs), "reply_bytes": show(&run.out), "message": msg});
     if let Some(p) = &run.panicked {
         ctx.violation("c05:panic", wit(format!("panic {}", p)));
         return;
@@ -58,6 +74,8 @@ fn server_case(ctx: &Ctx, script: &[&str], flags: Flags, spelling: usize) {
     for e in &evs {
         match e {
             Ev::Write(b) => pending_writes.extend_from_slice(b),
+            // what was written before the upgraded handler took over is the Upgrade reply
+            Ev::UpEnter(_) => pending_writes.clear(),
             Ev::Op { i, op, ok, err } => {
                 ctx.count("script_ops_observed", 1);
                 if *i != oi || op != script[oi] {
@@ -120,6 +138,9 @@ fn server_case(ctx: &Ctx, script: &[&str], flags: Flags, spelling: usize) {
     }
     if oi != script.len() {
         ctx.violation("c05:harness-ops-missing", wit(format!("{} of {} ops logged", oi, script.len())));
+        return;
+    }
+    if upgraded && script.is_empty() {
         return;
     }
     // on the wire: continues:true only if the request carried more
@@ -280,6 +301,9 @@ pub fn main(ctx: &Ctx) -> i32 {
                         server_case(ctx, &script, f, spelling);
                     }
                 }
+                if len >= 1 {
+                    server_case_x(ctx, &script, Flags { more: false, oneway: false }, 0, true);
+                }
                 if (idx % 301 == 0 && len >= 3) || (ctx.want_sample() && len >= 2) {
                     ctx.sample(json!({"script": script, "note": "run with flags -, more, oneway, more+oneway"}));
                 }
@@ -312,7 +336,7 @@ pub fn replay(ctx: &Ctx, w: &Value) {
         let script: Vec<String> = w.get("script").and_then(|v| v.as_array()).map(|a| a.iter().filter_map(|x| x.as_str().map(String::from)).collect()).unwrap_or_default();
         let s2: Vec<&str> = script.iter().map(|s| s.as_str()).collect();
         let f = Flags { more: w.get("more").and_then(|v| v.as_bool()).unwrap_or(false), oneway: w.get("oneway").and_then(|v| v.as_bool()).unwrap_or(false) };
-        server_case(ctx, &s2, f, match w.get("unset_flags_spelled").and_then(|v| v.as_str()) { Some("false") => 1, Some("null") => 2, _ => 0 });
+        server_case_x(ctx, &s2, f, match w.get("unset_flags_spelled").and_then(|v| v.as_str()) { Some("false") => 1, Some("null") => 2, _ => 0 }, w.get("upgraded_handler").and_then(|v| v.as_bool()).unwrap_or(false));
     } else {
         let k = w.get("k").and_then(|v| v.as_u64()).unwrap_or(0) as usize;
         let follow = w.get("follow_up_calls").and_then(|v| v.as_u64()).unwrap_or(0) as usize;
